@@ -679,7 +679,7 @@ def _check_property(prop, tier, seed, sel, scratch, t_start):
                 r2 = {"raw": ""}
                 if props:
                     r2 = run_kani(crate, scratch, h, prop, ["-Z", "concrete-playback", "--concrete-playback=print", "-Z", "unstable-options", "--cbmc-args"] + props, tag="-cex", extra_cfg=["vp_nocover"], timeout_factor=4, big=True)
-                if not extract_values(r2["raw"]):
+                if not props:
                     r2 = run_kani(crate, scratch, h, prop, ["-Z", "concrete-playback", "--concrete-playback=print"], tag="-cex2", extra_cfg=["vp_nocover"], timeout_factor=4, big=True)
                 tests = extract_values(r2["raw"])
                 want = set(f["desc"] for f in remaining)
